@@ -293,6 +293,18 @@ def make_resolvers(sname):
     return sync_resolver, async_resolver
 
 
+def _resolve_type_b(value, ctx, info):
+    """resolve_type of schema B's abstract types: the value names its type; a value carrying
+    "__rt_raise__": [message, extensions] makes type resolution raise the library's error
+    (a completion-time failure of the field being completed)"""
+    if isinstance(value, dict) and value.get("__rt_raise__"):
+        msg, ext = value["__rt_raise__"]
+        err = ResolverError(msg, extensions=ext) if ext is not None else ResolverError(msg)
+        _log_raise(ctx, info, err)
+        raise err
+    return value.get("__typename__") if isinstance(value, dict) else None
+
+
 _SCHEMA_CACHE = {}
 
 
@@ -309,6 +321,9 @@ def get_schema(sname, flavour):
                "B": [("Query", "me"), ("User", "name"), ("Query", "nodes")]}[sname]
         for tn, fn in reg:
             schema.register_resolver(tn, fn, async_r if flavour == "async" else sync_r)
+        if sname == "B":
+            for abstract in ("Node", "Any"):
+                schema.get_type(abstract).resolve_type = _resolve_type_b
         schema.validate()
         _SCHEMA_CACHE[k] = schema
     return _SCHEMA_CACHE[k]
@@ -516,6 +531,37 @@ VARIABLE_CASES = [
     ("query Q($a: Int!, $b: String!, $c: Nope, $d: Obj) { arg(x: $a) }",
      [{}, {"a": 1}, {"a": "z", "b": None}]),
     ("query Q($x: Int = \"s\") { arg(x: 1) }", [{}]),
+]
+
+# @skip / @include driven by nullable variables (with and without defaults): (schema, text, payloads)
+DIRECTIVE_VARIABLE_CASES = [
+    ("A", "query ($s: Boolean = true) { a @skip(if: $s) s }", [{"s": None}, {}, {"s": False}, {"s": True}]),
+    ("A", "query Q($s: Boolean = false) { a s @include(if: $s) }", [{"s": None}, {}, {"s": True}]),
+    ("A", "query Q($s: Boolean = true) { s o { a @include(if: $s) id } }", [{"s": None}, {}, {"s": False}]),
+    ("A", "query Q($s: Boolean = true) { s on { a id @skip(if: $s) } }", [{"s": None}, {}, {"s": False}]),
+    ("A", "query Q($s: Boolean = true) { lo { id o { a @skip(if: $s) } } a }", [{"s": None}, {"s": False}]),
+    ("A", "query Q($s: Boolean = true) { s ... @include(if: $s) { a } }", [{"s": None}, {}, {"s": False}]),
+    ("A", "query Q($s: Boolean = true) { s ...F @skip(if: $s) }\nfragment F on Query { a }", [{"s": None}, {"s": True}]),
+    ("A", "query Q($s: Boolean = true) { o { ...G } }\nfragment G on Obj { id a @include(if: $s) }", [{"s": None}, {"s": True}]),
+    ("A", "query Q($s: Boolean = true, $t: Boolean = false) { a @skip(if: $s) o { id @include(if: $t) } }",
+     [{"s": None}, {"t": None}, {"s": None, "t": None}, {"s": False, "t": True}]),
+    ("A", "query Q($s: Boolean! = true) { a @skip(if: $s) s }", [{"s": None}, {}, {"s": False}]),
+    ("A", "query Q($s: Boolean) { a @skip(if: $s) s }", [{"s": None}, {}, {"s": True}]),          # rejected by validation
+    ("A", "mutation M($s: Boolean = true) { set(x: 1) @skip(if: $s) mo { id @include(if: $s) } }", [{"s": None}, {}]),
+    ("A", "{ a @skip(if: true) s @include(if: false) o @skip(if: false) { id } }", [{}]),
+    ("B", "query Q($s: Boolean = true) { me { id friends { id @skip(if: $s) } } }", [{"s": None}, {"s": False}]),
+    ("B", "query Q($s: Boolean = true) { nodes { id ... on User { name @include(if: $s) } } }", [{"s": None}, {"s": True}]),
+]
+
+# completion-time ResolverError from resolve_type (schema B): (text, world)
+RESOLVE_TYPE_CASES = [
+    ("{ node(id: \"n1\") { id } me { id } }",
+     {"node": ["value", {"__typename__": "User", "__rt_raise__": ["cannot tell", {"code": "RT"}]}]}),
+    ("{ any { __typename } me { id } }", {"any": ["value", {"__rt_raise__": ["no type", None]}]}),
+    ("{ nodes { id } }", {"nodes": ["value", [{"__typename__": "Bot"}, {"__rt_raise__": ["bad item", {"i": 1}]}]]}),
+    ("{ anys { ... on User { id } } me { best { id } } }",
+     {"anys": ["value", [{"__rt_raise__": ["x", None]}]], "me/best": ["value", {"__rt_raise__": ["y", {"k": [1]}]}]}),
+    ("{ me { friends { id } name } }", {"me/friends": ["value", [{"__typename__": "User"}, {"__rt_raise__": ["f", None]}]]}),
 ]
 
 OPNAME_CASES = [
